@@ -62,3 +62,15 @@ func cmdEvalColor(args []string) int {
 	}
 	return 0
 }
+
+func cmdEvalLookup(args []string) int {
+	e, _ := LoadEngine([]string{".", "./terminfo", "./views", "./terminfo/base", "./terminfo/extended"}, nil)
+	db := LoadTermDB(e, true)
+	fn := e.FindFunc(modPath + "/terminfo.LookupTerminfo")
+	st := db.St.clone()
+	st.Frames = nil
+	traceFlag = true
+	paths, err := db.Ev.Call(st, fn, []Value{conc(args[0])})
+	fmt.Println(err, len(paths))
+	return 0
+}
